@@ -193,6 +193,7 @@ structure HL (s : State) : Prop where
   head : ∀ h, s.headElem = some h → IsEl s.dom h
   form : ∀ h, s.formElem = some h → IsEl s.dom h
   ctx : ∀ h, s.contextElem = some h → IsEl s.dom h
+  headTc : ∀ h, s.headElem = some h → TcDoc s.dom h
 
 /-- no insertion mode is Initial -/
 structure LateS (s : State) : Prop where
